@@ -145,8 +145,8 @@ type extStyle struct {
 var extStyles = []extStyle{
 	{"ext-p2", P2, ExtP2Name, extP2Profile{}, []int64{-75100}, []string{"timestamp"}, true, true},
 	{"ext-p1", P1, ExtP1Name, extP1Profile{}, []int64{-75100}, []string{"timestamp"}, false, true},
-	{"inherit-p1", P1, InhP1Name, inheritP1Profile{}, nil, nil, false, false},
-	{"inherit-p2-oid", P2, InhP2OID, inheritP2Profile{}, nil, nil, true, true},
+	{"inherit-p1", P1, InhP1Name, inheritProfile{P1}, nil, nil, false, false},
+	{"inherit-p2-oid", P2, InhP2OID, inheritProfile{P2}, nil, nil, true, true},
 	{"shadow-p2", P2, ShadowP2Name, shadowP2Profile{}, []int64{-75101}, []string{"vendor-boot-seed"}, true, true},
 	{"nested-p2", P2, NestedP2Name, nestedP2Profile{}, []int64{-75100, -75102}, []string{"timestamp", "serial"}, true, true},
 	{"lookalike-key-p2", P2, RegionP2Name, regionP2Profile{}, []int64{2650, -750001}, []string{"region", "flags"}, true, true},
